@@ -143,6 +143,14 @@ def judge(d):
         if not np.array_equal(a, arr[i], equal_nan=True):
             out.append(viol("C02/routes-differ", f"load({i}) != asnumpy()[{i}]"))
             break
+    if n >= 2:
+        sl = loader.load(slice(0, n))
+        if sl.shape != arr.shape or not np.array_equal(sl, arr, equal_nan=True):
+            out.append(viol("C02/routes-differ", "load(slice(0, n)) != asnumpy()"))
+        idx = list(range(n))[::-1]
+        li = loader.load(idx)
+        if li.shape != arr.shape or not np.array_equal(li, arr[idx], equal_nan=True):
+            out.append(viol("C02/routes-differ", f"load({idx}) != asnumpy()[{idx}]"))
     it = list(loader.load_iter())
     if len(it) != n or any(not np.array_equal(a, b, equal_nan=True) for a, b in zip(it, arr)):
         out.append(viol("C02/routes-differ", "load_iter() != asnumpy()"))
